@@ -352,7 +352,60 @@ def check_progress(ctx):
     ctx.check(n_w >= 1, inst, "anchor", "-", "writers of released_sectors (>= 1, found %d)" % n_w, None)
 
 
+def check_final_flush(ctx):
+    """dropping the store joins the workers; a worker's final flush retries retryable failures, so the join returns only if
+    that loop is bounded: its attempt counter (the value compared with FINAL_FLUSH_RETRY_LIMIT) strictly grows on every way
+    back to the loop head, and the loop is left when the limit is reached"""
+    from feoxlint import bounds as B
+    inst = "C18.final-flush"
+    b = ctx.fn("write_buffer::write_buffer_worker", inst)
+    if b is None:
+        return
+    tr = A.tracer(b)
+    cmps = []
+    for n in b.nodes:
+        if n.kind == "assign" and n.ev.get("rv") == "bin" and n.ev["op"] in ("Eq", "Ge", "Gt", "Lt", "Le", "Ne"):
+            v = tr.node_value(n.id)
+            if v.has_const(name="FINAL_FLUSH_RETRY_LIMIT"):
+                cmps.append((n.id, v))
+    ctx.check(len(cmps) >= 2, inst, "anchor", b.path, "the retry limit is tested on both retry arms (found %d tests)" % len(cmps), None)
+    locs = set()
+    for nid, v in cmps:
+        for x in v.walk():
+            if x.k == "local":
+                locs.add(x.extra)
+    ctx.check(len(locs) == 1, inst, "PIN", b.path, "every limit test reads the same attempt counter", None, {"locals": sorted(b.local_name(l) or str(l) for l in locs)})
+    if len(locs) != 1:
+        return
+    counter = next(iter(locs))
+    eng = B.Engine(ctx.prog)
+    items = B.loop_progress(eng, b, counter, +1)
+    ctx.check(len(items) >= 2, inst, "anchor", b.path, "ways back to the head of the final-flush loop (>= 2, found %d)" % len(items), None)
+    c = eng.ctx(b)
+    for ob, (p, lab) in items:
+        facts = eng.facts_at_edge(c, p, lab)
+        ok = all(eng.entails(c, facts, g, 0) for g in ob.goals)
+        ctx.check(ok, inst, "PROGRESS", b.path, "the attempt counter grows on every retry of the final flush: " + ob.desc, ob.where)
+    # reaching the limit leaves the loop: on the `== limit` edge no further flush attempt is reachable without leaving
+    ff = [n.id for n in b.calls() if R.call_matches(n.ev, "write_buffer::flush_worker_shards")]
+    for nid, v in cmps:
+        def is_this(e, nid=nid):
+            return e.nid == nid or (e.k == "bin" and e.has_const(name="FINAL_FLUSH_RETRY_LIMIT") and e.nid == nid)
+        edges = [(s_, l) for s_ in A.switches(b) for l, val in A.switch_info(b, s_).edge_vals.items()
+                 if A.switch_info(b, s_).raw.nid == nid or A.switch_info(b, s_).root.nid == nid
+                 for _ in [0] if val == ("true" if v.extra in ("Eq", "Ge", "Gt") else "false")]
+        ctx.check(bool(edges), inst, "anchor", b.path, "the limit test is branched on", b.where(nid))
+        for (s_, l) in edges:
+            r, _ = A.reach(b, edge_targets_local(b, s_, l))
+            ctx.check(not any(x in r for x in ff), inst, "FOLLOW", b.path, "once the limit is reached no further flush attempt is made", b.where(s_))
+
+
+def edge_targets_local(b, s_, l):
+    return [t for (t, lab) in b.nodes[s_].succ if lab == l]
+
+
 def check(ctx):
+    check_final_flush(ctx)
     check_progress(ctx)
     g, groups = check_lockorder(ctx)
     check_wait(ctx, g, groups)
